@@ -7,6 +7,35 @@ from .function_op import Statement
 from typing import List, Optional, cast
 from ..util import code_indentation, vsprintf
 
+def _is_parenthesized(text: str) -> bool:
+    """True iff text starts with '(' and THAT parenthesis closes at the very
+    last character (the contents of string literals are skipped), i.e. the
+    whole text is one parenthesised group: '(a + 1)' but not '(a + 1).concat(2)'"""
+    if not text.startswith('('):
+        return False
+    depth = 0
+    quote = ''
+    i = 0
+    n = len(text)
+    while i < n:
+        ch = text[i]
+        if quote:
+            if ch == '\\':
+                i += 1
+            elif ch == quote:
+                quote = ''
+        elif ch == '"' or ch == "'":
+            quote = ch
+        elif ch == '(':
+            depth += 1
+        elif ch == ')':
+            depth -= 1
+            if depth == 0:
+                return i == n - 1
+        i += 1
+    return False
+
+
 #
 # Repeat Operation class.
 # 
@@ -51,7 +80,7 @@ class RepeatOperation(Node):
     def generate_js(self, indentation: int, factory_method: bool) -> str: 
         cond = cast(Node, self.condition)
         str_cond: str = cond.generate_js(0, factory_method)
-        if not str_cond.startswith('('):
+        if not _is_parenthesized(str_cond):
             str_cond = vsprintf("(%s)", str_cond)
 
         # The loop variable as the rest of the code refers to it (a global
@@ -108,7 +137,7 @@ class IfThenOperation(Node):
     def generate_js(self, indentation: int, factory_method: bool) -> str: 
         cond = cast(Node, self.condition)
         str_cond: str = cond.generate_js(0, factory_method)
-        if not str_cond.startswith('('):
+        if not _is_parenthesized(str_cond):
             str_cond = vsprintf("(%s)", str_cond)
 
         code = vsprintf("if %s {\n", str_cond)
